@@ -272,8 +272,9 @@ namespace
                     ++inside;
             }
             Scal s1 = cur->scal(sz);
+            // give them back the way they were obtained (composable interface: no leak accounting)
             for (auto it = taken.rbegin(); it != taken.rend(); ++it)
-                classify([&] { cur->dn(*it, sz, 1); });
+                classify([&] { (void)cur->tdn(*it, sz, 1); });
             Scal s2 = cur->scal(sz);
             Ev("drain").i("o", cur->o).u("sz", sz).i("fn0", s0.fn).i("got", got).i("inside", inside).i("fn1", s1.fn).i(
                 "fn2", s2.fn).i("ups", w.up_calls - c0).s("r", r);
